@@ -39,7 +39,7 @@ Call ==
 \* the stream is explored.  EINTR retries are a stutter and not modelled.
 Refill ==
   /\ phase = "scan" /\ i = Len(pending) /\ input # <<>>
-  /\ \E k \in 1..Min(BUF, Len(input)) :
+  /\ \E k \in 1..MinOf(BUF, Len(input)) :
         /\ pending' = SubSeq(input, 1, k)
         /\ input' = SubSeq(input, k + 1, Len(input))
   /\ i' = 0
